@@ -984,7 +984,7 @@ pub fn make_case(seed: u64, idx: usize, mode: &str, tier: &str, flavours: &[Stri
   let thorough = tier == "thorough";
   // extended ("x") families — size / contention diversity (README "Extended generator families"): about a
   // quarter of the cases of the flavours that have batches; the rest is the classic generator
-  let ext = (f.batch || (f.rdv && !f.asyn && mode == "conc" && rng.chance(35))) && rng.chance(if thorough { 30 } else { 26 });
+  let ext = !f.lock && (f.batch || (f.rdv && !f.asyn && mode == "conc" && rng.chance(35))) && rng.chance(if thorough { 30 } else { 26 });
   let mut fam = "";
   let programs = if ext {
     let (c, p, name) = crate::genx::gen_x(&mut rng, mode, &flavour, thorough);
